@@ -3,9 +3,9 @@ CONSTANTS
   F = 3
   Keys = {2, 4, 5, 6, 10, 11, 12, 13, 14, 15}
   Threads = {0, 1, 2}
-  Prog <- PG
+  Prog <- PR
   Init1 = {2}
-  Init2 = {10, 12, 14}
+  Init2 = {10,12,14}
   UNLOCK_BEFORE_PARENT = FALSE
   NO_INS_ON_INSERT = FALSE
   NO_INS_ON_DELETE = FALSE
@@ -13,7 +13,7 @@ CONSTANTS
   SCAN_NO_ENTRY_CHECK = FALSE
   SCAN_DUP = FALSE
   ISCAN_NO_REWIND = FALSE
-  LATE_PARENT = FALSE
+  LATE_PARENT = TRUE
   SCAN_FRESH_VERSION = FALSE
 INVARIANTS LinOK ScanOK NvOK RootOpsOK Quiescent
 PROPERTY Termination
